@@ -460,6 +460,10 @@ class CodeGen:
                     yield asm.Label(handler)
                     yield asm.Metadata('stop block')
                     self.effective_defeat = prev_defeat
+                    # Defeat has been caught: it is no longer virtual.
+                    # Without this, the defeat word keeps pointing at
+                    # this handler after the try block is over.
+                    yield asm.Mov(self.defeat, prev_defeat)
                     yield asm.Mov(self.fp, asm.State(self.try_fp))
                     yield from ap_bubble.value.to(self.ap)
                     yield from self.pop(ap_bubble)
